@@ -192,6 +192,8 @@ func DrawXRecord(l *core.Lane, long bool) *XRecord {
 					v = 255
 				case "PixelXDimension", "PixelYDimension", "LensID":
 					v = 1<<32 - 1
+				case "Rating":
+					v = -1 // "rejected", the one negative value the XMP specification defines
 				}
 			}
 			add(&XProp{NS: ns, Name: name, Val: strconv.Itoa(v), Path: path, Want: strconv.Itoa(v)})
